@@ -62,7 +62,14 @@ class _Rec:
             self.discharged += n
         else:
             m = re.search(r'File "([^"]+)", line (\d+)[^\n]*\n(Error:[^\n]*(?:\n[^\n]+){0,6})', out)
-            self.broken.append(f'tie A, dyn theory {name}: ' + (m.group(0)[:600] if m else out[-600:]))
+            which = ''
+            if m:
+                # name the lemma / theorem that no longer checks and what it ties
+                src = p.read_text().splitlines()[:int(m.group(2))]
+                names = [mm.group(2) for ln in src for mm in [re.match(r'\s*(Lemma|Theorem)\s+([A-Za-z0-9_\']+)', ln)] if mm]
+                if names:
+                    which = f' [no longer checks: {names[-1]}' + (f' -- {BRIDGED[names[-1]]}' if names[-1] in BRIDGED else '') + ']'
+            self.broken.append(f'tie A, dyn theory {name}{which}: ' + (m.group(0)[:600] if m else out[-600:]))
         self.cmds.append(f'coqc -Q coq FpyV -Q . Dyn build/{self.ck.pid}/{name}.v')
         return ok, out
 
@@ -94,6 +101,8 @@ def start(ck):
             aok, sets = ck.audit_props(out, names)
             if len(sets) != len(names):
                 ck.broken.append(f'tie A: {len(names)} Print Assumptions commands in BridgeReals.v, {len(sets)} answers')
+        for c in rec.out.get('concrete', [])[:6]:
+            ck.violation('the source no longer computes what the proved model computes (found through the regenerated model)', c)
         ck.log(rec.out.get('log', 'tie A: no result'))
         return bool(res.get('ok')) and not rec.broken
     return join
@@ -142,6 +151,8 @@ def _run(ck):
             names2 = re.findall(r'Print Assumptions\s+([A-Za-z0-9_\']+)\s*\.', (COQ / 'dyn' / 'GenTheorems.v').read_text())
             ck.out['audit'].append((names2, out2))
             ck.extra['py2v_theorems'] = names2
+    if not ok:
+        _search(ck)
     unm = sorted({m for t in tr.out.values() for m in re.findall(r'arms left unmodelled: (.*?) \*\)', t)})
     ck.extra['py2v'] = {
         'translated_functions': nfun,
@@ -158,3 +169,73 @@ def _run(ck):
     ck.out['log'] = (f'tie A: {nfun} functions regenerated from the source, bridge '
                      f'{"re-proved" if ok else "BROKEN"} ({time.time() - t0:.0f}s)')
     return ok
+
+
+def _search(ck):
+    """A bridge lemma no longer re-proves: look for a concrete input on which the regenerated model and the proved
+    model disagree (coq/dyn/GenSearch.v, vm_compute over a grid) and replay it on the implementation."""
+    ok, out = ck.ck.coqc_dyn('GenSearch', src=COQ / 'dyn' / 'GenSearch.v', timeout=900)
+    if not ok:
+        ck.broken.append('tie A: the search for a concrete disagreement did not compile: ' + out[-300:])
+        return
+    flat = ' '.join(out.split())
+    found = {}
+    for m in re.finditer(r'\("([A-Z]+)"%string, (\d+)%nat, \[(.*?)\]\) : string', flat):
+        kind, n, body = m.group(1), int(m.group(2)), m.group(3)
+        rows = [[int(z.replace('%Z', '').strip('() ')) for z in r.split(';') if z.strip()] for r in re.findall(r'\[([^\[\]]*)\]', body)]
+        found[kind] = (n, rows)
+    ck.extra['py2v_search'] = {k: {'disagreements': v[0], 'first': v[1][:3]} for k, v in found.items()}
+    from fpy2.number import RealFloat, RM
+    import random
+    modes = ['RNE', 'RNA', 'RTP', 'RTN', 'RTZ', 'RAZ', 'RTO', 'RTE']
+
+    class Scripted(random.Random):
+        def __init__(self, v):
+            super().__init__(0)
+            self.v = v
+
+        def getrandbits(self, k):
+            return self.v
+    concrete = []
+    for kind, (n, rows) in found.items():
+        for r in rows:
+            try:
+                if kind == 'ROUND':
+                    x = RealFloat(bool(r[0]), r[1], r[2])
+                    p = r[4] if r[3] else None
+                    nn = r[6] if r[5] else None
+                    want = r[8:]
+                    try:
+                        y = x.round(p, nn, getattr(RM, modes[r[7]]))
+                        got = [1, int(y.s), y.exp, y.c, int(y.inexact)]
+                    except Exception:  # noqa: BLE001
+                        got = [0, 0, 0, 0, 0]
+                    desc = f'RealFloat(s={bool(r[0])}, exp={r[1]}, c={r[2]}).round({p}, {nn}, RM.{modes[r[7]]})'
+                elif kind == 'STOCH':
+                    x = RealFloat(bool(r[0]), r[1], r[2])
+                    want = r[7:]
+                    try:
+                        y = x.round(None, r[3], getattr(RM, modes[r[6]]), r[4], rng=Scripted(r[5]))
+                        got = [1, int(y.s), y.exp, y.c, int(y.inexact)]
+                    except Exception:  # noqa: BLE001
+                        got = [0, 0, 0, 0, 0]
+                    desc = (f'RealFloat(s={bool(r[0])}, exp={r[1]}, c={r[2]}).round(None, {r[3]}, RM.{modes[r[6]]}, '
+                            f'num_randbits={r[4]}, rng=<getrandbits -> {r[5]}>)')
+                elif kind in ('ADD', 'MUL'):
+                    x, y2 = RealFloat(bool(r[0]), r[1], r[2]), RealFloat(bool(r[3]), r[4], r[5])
+                    z = x + y2 if kind == 'ADD' else x * y2
+                    got, want = [int(z.s), z.exp, z.c], r[6:9]
+                    desc = f'{x!r} {"+" if kind == "ADD" else "*"} {y2!r}'
+                elif kind == 'CMP':
+                    x, y2 = RealFloat(bool(r[0]), r[1], r[2]), RealFloat(bool(r[3]), r[4], r[5])
+                    c = x.compare(y2)
+                    got, want = [{'LESS': -1, 'EQUAL': 0, 'GREATER': 1}[c.name]], r[6:7]
+                    desc = f'{x!r}.compare({y2!r})'
+                else:
+                    continue
+            except Exception as ex:  # noqa: BLE001
+                got, want, desc = f'raised {type(ex).__name__}', r, f'{kind} {r}'
+            if got != want:
+                concrete.append({'call': desc, 'implementation': got, 'proved_model': want,
+                                 'encoding': 'round/stochastic: [ok, s, exp, c, inexact]; add/mul: [s, exp, c]; compare: -1/0/1'})
+    ck.out['concrete'] = concrete
